@@ -583,11 +583,6 @@ Proof.
     pose proof (has_zero_false_Forall _ Z) as Hnz.
     apply contiguous_injective; [apply combine_nz; exact Hnz|].
     unfold is_contiguous.
-    (* contig_aux on the reversed dims, generalised over the processed suffix *)
-    assert (G : forall pre suf, Forall (fun s => s <> 0) (pre ++ suf) ->
-               contig_aux false (rev (combine (contig_strides (pre ++ suf)) (pre ++ suf))) 1 = true ->
-               True) by trivial.
-    clear G.
     assert (H : forall sh, Forall (fun s => s <> 0) sh -> forall tl,
                contig_aux false (rev (combine (contig_strides sh) sh) ++ tl) 1 =
                contig_aux false tl (nprod sh)).
@@ -597,5 +592,5 @@ Proof.
       destruct (d =? 1) eqn:E1.
       - apply N.eqb_eq in E1. subst d. cbn [nprod]. rewrite N.mul_1_l. reflexivity.
       - cbn [nprod]. rewrite (N.mul_comm (nprod r) d). reflexivity. }
-    specialize (H _ Hnz []). rewrite app_nil_r in H. rewrite H. reflexivity.
+    specialize (H _ Hnz []). rewrite app_nil_r in H. etransitivity; [exact H|reflexivity].
 Qed.
